@@ -130,7 +130,18 @@ bool Module::initialize(const Json &js_parent)
 
     //! 用下标遍历：子模块的 onInit() 可能向本模块 add() 新的子模块，迭代器会失效
     for (size_t i = 0; i < children_.size(); ++i) {
-        if (!children_[i].module_ptr->initialize(js_this) && children_[i].required) {
+        bool is_ok = false;
+        try {
+            is_ok = children_[i].module_ptr->initialize(js_this);
+        } catch (...) {
+            //! 子模块的 onInit() 抛了异常：与失败一样回滚，再把异常交给调用者
+            while (i > 0)
+                children_[--i].module_ptr->cleanup();
+            onCleanup();
+            throw;
+        }
+
+        if (!is_ok && children_[i].required) {
             LogErr("required module `%s' initialize() fail", children_[i].module_ptr->name().c_str());
             //! 回滚：逆序清理之前已处理的子模块，再清理自己
             while (i > 0)
@@ -164,7 +175,18 @@ bool Module::start()
     }
 
     for (auto iter = children_.begin(); iter != children_.end(); ++iter) {
-        if (!iter->module_ptr->start() && iter->required) {
+        bool is_ok = false;
+        try {
+            is_ok = iter->module_ptr->start();
+        } catch (...) {
+            //! 子模块的 onStart() 抛了异常：与失败一样回滚，再把异常交给调用者
+            while (iter != children_.begin())
+                (--iter)->module_ptr->stop();
+            onStop();
+            throw;
+        }
+
+        if (!is_ok && iter->required) {
             LogErr("required module `%s' start() fail", iter->module_ptr->name().c_str());
             //! 回滚：逆序停止之前已处理的子模块，再停止自己
             while (iter != children_.begin())
